@@ -433,7 +433,8 @@ Definition replies_of (n : nat) (s : shared) : list (nat * Z * Z) :=
 (* [Some (id, code)]: the thread is past its SendSystemError(id, code) *)
 Definition sent_done (o id : Z) : option (Z * Z) :=
   if (o =? oRefused1) || (o =? oRefused2) || (o =? oRelRefused) then Some (id, eDeclined)
-  else if o =? oProto then Some (id, eProtocol) else None.
+  else if o =? oProto then Some (id, eProtocol)
+  else if (oErrBase <=? o) && (o <=? oErrBase + 255) then Some (id, o - oErrBase) else None.
 Definition sent_k (k : cont) : option (Z * Z) :=
   match k with
   | KDone o id => sent_done o id
@@ -447,6 +448,7 @@ Definition sent (p : pc) : option (Z * Z) :=
   | PCE8 _ k | PCE9 k | PCE10 k => sent_k k
   | PProtoCAS id | PProtoStopOut id | PProtoStopIn id => Some (id, eProtocol)
   | PR5 id => Some (id, eDeclined)
+  | PErrRm id code => sent_done (oErrBase + code) id
   | _ => None
   end.
 (* the program counters whose next step is a SendSystemError *)
@@ -454,8 +456,19 @@ Definition is_send (p : pc) : option (Z * Z) :=
   match p with
   | PProtoSend id => Some (id, eProtocol)
   | PRRef id | PR4 id | PRelRef id => Some (id, eDeclined)
+  | PErr id code => Some (id, code)
   | _ => None
   end.
+
+Lemma sent_done_err : forall code id, code_ok code = true -> sent_done (oErrBase + code) id = Some (id, code).
+Proof.
+  intros code id H. unfold code_ok in H. apply andb_true_iff in H. destruct H as [H1 H2].
+  apply Z.leb_le in H1. apply Z.leb_le in H2. unfold sent_done, oErrBase, oRefused1, oRefused2, oRelRefused, oProto.
+  repeat match goal with |- context [?a =? ?b] => destruct (a =? b) eqn:?; [zprop; lia|] end. cbn [orb].
+  replace (100 <=? 100 + code) with true by (symmetry; apply Z.leb_le; lia).
+  replace (100 + code <=? 100 + 255) with true by (symmetry; apply Z.leb_le; lia).
+  cbn [andb]. f_equal. f_equal. lia.
+Qed.
 
 Lemma ref_char : forall s n p s' p', tstep s n p = Some (s', p') ->
   match is_send p with
@@ -470,6 +483,7 @@ Proof.
        | |- context [match ?k with KDone _ _ => _ | KCloser => _ | KFail => _ | KProto _ => _ end] => destruct k
        end; cbn [sent sent_k];
     frames; fields; try (split; [reflexivity|]); try reflexivity; try assumption; auto.
+  split; [apply sent_done_err; assumption|reflexivity].
 Qed.
 
 Definition answered (s : shared) (n : nat) (id code : Z) : Prop :=
